@@ -38,8 +38,8 @@
   settable-ness behave as the Go documentation says), struct types that were never registered (plain-struct-hash) or
   are derived anonymously, the registry-mapped path (FromReflectedValue / ToReflectedValue of declared types), a struct
   field that is itself an interface{} (Runtime fall-back value), an embedded POINTER to a struct, fields that shadow a
-  field of an embedded struct, tags other than `name` / `value`, interface{} holding anything but a scalar, map keys other
-  than integers, strings and booleans, named types, NaN payloads.
+  field of an embedded struct, tag forms outside name / value / type / kind over the literal and type grammar below,
+  interface{} holding anything but a scalar, map keys other than integers, strings and booleans, named types, NaN payloads.
   Strings are valid UTF-8.  Core-only file (linked into the driver).
 -/
 namespace Pcore.Reflect
@@ -51,11 +51,25 @@ inductive Lit where
   | anil | acons (h t : Lit) | hnil | hcons (k v t : Lit)
   deriving DecidableEq, Repr, Inhabited
 
-/-- what the `puppet:"…"` tag of a struct field says (reflector.go ReflectFieldTags) plus the field's `Anonymous` flag -/
+/-- a type written in a struct tag (`type=>…`): Integer[lo,hi], Float, String, Boolean, Any, Optional[T], Array[T],
+    Hash[K,V] -/
+inductive TTy where
+  | int (lo hi : Int) | float | str | bool | any | opt (t : TTy) | array (t : TTy) | hash (k v : TTy)
+  deriving DecidableEq, Repr, Inhabited
+
+/-- attribute kinds (`kind=>…`); `normal` = no kind given -/
+inductive Kind where
+  | normal | constant | derived | givenOrDerived | reference
+  deriving DecidableEq, Repr, Inhabited
+
+/-- what the `puppet:"…"` tag of a struct field says (reflector.go ReflectFieldTags reads exactly the keys name, kind,
+    value, type) plus the field's `Anonymous` flag -/
 structure FTag where
   attr : Option String := none     -- `name=>'x'`
   dflt : Option Lit := none        -- `value=>LIT`
   anon : Bool := false             -- embedded field
+  typ : Option TTy := none         -- `type=>T`
+  kind : Kind := .normal           -- `kind=>constant|derived|given_or_derived|reference`
   deriving DecidableEq, Repr, Inhabited
 
 /-- Go types assembled with reflect.  Width 0 = the platform `int` / `uint` (64 bit; a type distinct from int64).
@@ -334,6 +348,10 @@ def typeOf : GoTy → Ty
   | .snil => .obj .snil
   | .scons n tg ft rest => .obj (.scons n tg ft rest)
 
+def TTy.toTy : TTy → Ty
+  | .int lo hi => .int lo hi | .float => .float 64 | .str => .str | .bool => .bool | .any => .any
+  | .opt t => .opt t.toTy | .array t => .array t.toTy | .hash k v => .hash k.toTy v.toTy
+
 /-- the parent types of the object type derived from a struct type: the chain of the FIRST fields that are embedded
     structs (reflector.go InitializerFromTagged `i == 0 && f.Anonymous`; the harness passes the parent's type) -/
 def ancestors : GoTy → List GoTy
@@ -525,20 +543,30 @@ structure Field where
   ty : GoTy
   dflt : Option Lit := none
   goName : String := ""
+  /-- the attribute's type: the one derived from the Go type unless the tag declares another (`fieldOfDecl`) -/
+  aty : Ty := typeOf ty
+  kind : Kind := .normal
   deriving Repr, Inhabited
 
-/-- the literal of the attribute's value: the declared default, else the implicit undef of a pointer field -/
+/-- the literal of the attribute's value: the declared default, else the implicit undef of an Optional attribute type
+    (reflector.go ReflectFieldTags / attribute.go initialize: "Optional attributes have an implicit value of undef") -/
 def Field.dlit (f : Field) : Option Lit :=
   match f.dflt with
   | some d => some d
-  | none => match f.ty with
-    | .ptr _ => some .undef
+  | none => match f.aty with
+    | .opt _ => some .undef
     | _ => none
 
 /-- the attribute's value (`HasValue`) -/
 def Field.default (f : Field) : Option Val := f.dlit.map Lit.toVal
 
-def Field.isOpt (f : Field) : Bool := f.default.isSome
+/-- objecttype.go createAttributesInfo / createInitType: an attribute with a value, or of kind given_or_derived, is
+    optional (placed after the required ones, may be absent from the init hash) -/
+def Field.isOpt (f : Field) : Bool := f.default.isSome || f.kind == .givenOrDerived
+
+/-- attributesinfo: constants and derived attributes have no position in an instance (they are not in AttributesInfo,
+    not in the init hash, never set on the struct) -/
+def Field.stored (f : Field) : Bool := f.kind != .constant && f.kind != .derived
 
 /-- `attr.Default(v)` = `value != nil && value.Equals(v)` -/
 def Field.isDefault (f : Field) (v : Val) : Bool :=
@@ -556,7 +584,7 @@ def Lit.exact : Lit → Bool
 
 def Field.exactDflt (f : Field) : Bool :=
   match f.dflt with
-  | some d => d.exact
+  | some d => d.exact && f.kind != .givenOrDerived
   | none => true
 
 def fieldVal (fv : Field × GoVal) : Val := wrap false fv.1.ty fv.2
@@ -564,9 +592,16 @@ def fieldVal (fv : Field × GoVal) : Val := wrap false fv.1.ty fv.2
 def attrOrder {α : Type} (p : α → Field) (l : List α) : List α :=
   l.filter (fun x => !(p x).isOpt) ++ l.filter (fun x => (p x).isOpt)
 
+def isUndef : Val → Bool
+  | .undef => true
+  | _ => false
+
+/-- objectvalue.go InitHash: `attr.HasValue() && v.Equals(attr.Value()) || attr.Kind() == givenOrDerived && v.Equals(undef)` -/
+def Field.omitted (f : Field) (v : Val) : Bool := f.isDefault v || (f.kind == .givenOrDerived && isUndef v)
+
 def initHash (fvs : List (Field × GoVal)) : List (Val × Val) :=
   (attrOrder (·.1) fvs).filterMap fun fv =>
-    if fv.1.isDefault (fieldVal fv) then none else some (.str fv.1.name, fieldVal fv)
+    if fv.1.omitted (fieldVal fv) then none else some (.str fv.1.name, fieldVal fv)
 
 /-- the hash with every attribute given -/
 def fullHash (fvs : List (Field × GoVal)) : List (Val × Val) :=
@@ -580,7 +615,7 @@ def knownKey (fs : List Field) : Val → Bool
     may be absent -/
 def attrCheck (ih : List (Val × Val)) (f : Field) : Bool :=
   match lookupAttr f.name ih with
-  | some w => inst (typeOf f.ty) w
+  | some w => inst f.aty w
   | none => f.isOpt
 
 def namedCheck (fs : List Field) (ih : List (Val × Val)) : Bool :=
@@ -593,7 +628,7 @@ def allZip {α β : Type} (p : α → β → Bool) : List α → List β → Boo
 /-- positional dispatch: all required attributes, then any prefix of the optional ones; every argument is checked -/
 def posCheck (attrs : List Field) (args : List Val) : Bool :=
   (attrs.filter (fun f => !f.isOpt)).length ≤ args.length && args.length ≤ attrs.length &&
-  allZip (fun f w => inst (typeOf f.ty) w) attrs args
+  allZip (fun f w => inst f.aty w) attrs args
 
 def fillFromHash (attrs : List Field) (ih : List (Val × Val)) : List Val :=
   attrs.map fun f => (lookupAttr f.name ih).getD (f.default.getD .undef)
@@ -650,7 +685,7 @@ def Lit.noNaN : Lit → Bool
     arrays on slices / Go arrays, string-keyed hashes on maps, undef only on pointers …) -/
 def flatField (f : Field) : Bool :=
   Modelled f.ty && (match f.ty with | .iface => false | _ => true) &&
-  (match f.dflt with | some d => d.noNaN && inst (typeOf f.ty) d.toVal | none => true)
+  (match f.dflt with | some d => d.noNaN && inst f.aty d.toVal | none => true)
 
 /-! ### struct types as terms: fields, tags, embedding
 
@@ -671,41 +706,168 @@ def lowerFirstL : List Char → List Char
 /-- issue.FirstToLower: the first character that is not an underscore is lower-cased -/
 def lowerFirst (s : String) : String := String.ofList (lowerFirstL s.toList)
 
-def fieldOfDecl (n : String) (tg : FTag) (ft : GoTy) : Field :=
-  { name := tg.attr.getD (lowerFirst n), ty := ft, dflt := tg.dflt, goName := n }
+def isOptTy : Ty → Bool
+  | .opt _ => true
+  | _ => false
 
-/-- the fields of a struct type, every one as an attribute -/
-def declFields : GoTy → List Field
-  | .scons n tg ft rest => fieldOfDecl n tg ft :: declFields rest
+/-- reflector.go ReflectFieldTags, the attribute's type before attribute.go sees it: the tag's `type`, else the type
+    derived from the Go type; a declared value of undef makes it Optional ("Convenience") -/
+def tagType (tg : FTag) (ft : GoTy) : Ty :=
+  let t0 := match tg.typ with
+    | some t => t.toTy
+    | none => typeOf ft
+  if !isOptTy t0 && tg.dflt == some .undef then .opt t0 else t0
+
+/-- the attribute a field declares: name (tag `name`, else FirstToLower of the Go name), type (`tagType`; attribute.go
+    initialize: an attribute of kind given_or_derived "is always optional"), declared value, kind -/
+def fieldOfDecl (n : String) (tg : FTag) (ft : GoTy) : Field :=
+  let t1 := tagType tg ft
+  { name := tg.attr.getD (lowerFirst n), ty := ft, dflt := tg.dflt, goName := n,
+    aty := if tg.kind == .givenOrDerived && !inst t1 .undef then .opt t1 else t1,
+    kind := tg.kind }
+
+/-- every field of a struct type as the attribute it declares (constants and derived ones included) -/
+def allDecl : GoTy → List Field
+  | .scons n tg ft rest => fieldOfDecl n tg ft :: allDecl rest
   | _ => []
 
-/-- the attributes of the object type derived from a struct type: the parent's, then the own -/
+/-- the fields of a struct type that are STORED attributes (`Field.stored`), in order -/
+def declFields : GoTy → List Field
+  | .scons n tg ft rest =>
+      if (fieldOfDecl n tg ft).stored then fieldOfDecl n tg ft :: declFields rest else declFields rest
+  | _ => []
+
+/-- their values -/
+def declVals : GoTy → List GoVal → List GoVal
+  | .scons n tg ft rest, v :: vs =>
+      if (fieldOfDecl n tg ft).stored then v :: declVals rest vs else declVals rest vs
+  | _, _ => []
+
+/-- the field values again: the stored ones from the list, the Go zero value for a constant / derived field (setValues
+    never touches it) -/
+def declBuild : GoTy → List GoVal → List GoVal
+  | .scons n tg ft rest, vs =>
+      if (fieldOfDecl n tg ft).stored then
+        match vs with
+        | v :: vs' => v :: declBuild rest vs'
+        | [] => []
+      else zeroOf ft :: declBuild rest vs
+  | _, _ => []
+
+/-- the attributes of an instance of the object type derived from a struct type (AttributesInfo before the
+    required / optional reordering): the parent's, then the own -/
 def attrsOf : GoTy → List Field
   | .scons n tg ft rest =>
-      if tg.anon && isStruct ft then attrsOf ft ++ declFields rest else fieldOfDecl n tg ft :: declFields rest
+      if tg.anon && isStruct ft then attrsOf ft ++ declFields rest else declFields (.scons n tg ft rest)
   | _ => []
 
 /-- the Go values of the attributes, in the order of `attrsOf` (fields of the embedded parent are promoted) -/
 def flatVals : GoTy → GoVal → List GoVal
-  | .scons _ tg ft _, .st (v :: vs) => if tg.anon && isStruct ft then flatVals ft v ++ vs else v :: vs
+  | .scons n tg ft rest, .st (v :: vs) =>
+      if tg.anon && isStruct ft then flatVals ft v ++ declVals rest vs else declVals (.scons n tg ft rest) (v :: vs)
   | _, _ => []
 
 /-- the struct with these attribute values -/
 def rebuild : GoTy → List GoVal → GoVal
-  | .scons _ tg ft _, vs =>
+  | .scons n tg ft rest, vs =>
       if tg.anon && isStruct ft then
-        .st (rebuild ft (vs.take (attrsOf ft).length) :: vs.drop (attrsOf ft).length)
-      else .st vs
+        .st (rebuild ft (vs.take (attrsOf ft).length) :: declBuild rest (vs.drop (attrsOf ft).length))
+      else .st (declBuild (.scons n tg ft rest) vs)
   | _, _ => .st []
 
 def nodupS : List String → Bool
   | [] => true
   | a :: r => !r.contains a && nodupS r
 
-/-- the object type can be derived and is inside the model: distinct attribute names and Go names over the parent chain,
-    every attribute a modelled field -/
+/-- every Go field name `FieldByName` can see from a struct: its own and, through embedded structs in any position,
+    theirs -/
+def promotedNames : GoTy → List String
+  | .scons n tg ft rest => (n :: (if tg.anon && isStruct ft then promotedNames ft else [])) ++ promotedNames rest
+  | _ => []
+
+/-- the fields of a struct type with their tags -/
+def tagsOf : GoTy → List (String × FTag × GoTy)
+  | .scons n tg ft rest => (n, tg, ft) :: tagsOf rest
+  | _ => []
+
+/-- the fields that declare the type's OWN attributes: all but an embedded first field (the parent) -/
+def ownTags : GoTy → List (String × FTag × GoTy)
+  | .scons n tg ft rest => if tg.anon && isStruct ft then tagsOf rest else (n, tg, ft) :: tagsOf rest
+  | _ => []
+
+/-- all attributes (of every kind) of the object type of a struct type: the parent chain's, then the own -/
+def chainDecl : GoTy → List Field
+  | .scons n tg ft rest => if tg.anon && isStruct ft then chainDecl ft ++ allDecl rest else allDecl (.scons n tg ft rest)
+  | _ => []
+
+/-- the members an own attribute may clash with: all attributes of the parent -/
+def parentMembers : GoTy → List Field
+  | .scons _ tg ft _ => if tg.anon && isStruct ft then chainDecl ft else []
+  | _ => []
+
+def ptrLike : GoTy → Bool
+  | .ptr _ => true
+  | .iface => true
+  | _ => false
+
+/-- reflector.go ReflectFieldTags: "Optional attributes must be pointers" — checked for every field while the initializer
+    of the type is assembled, before any attribute is created -/
+def fieldErr1 (x : String × FTag × GoTy) : Option String :=
+  if isOptTy (tagType x.2.1 x.2.2) && !ptrLike x.2.2 then some "PCORE_IMPOSSIBLE_OPTIONAL" else none
+
+/-- attribute.go initialize, then annotatedmember.go assertOverride, for one attribute: a value (declared, or the
+    implicit undef that ReflectFieldTags adds to an Optional type) cannot be combined with derived / given_or_derived and
+    must be an instance of the type; a constant needs a value; an attribute the parent has too is never derived with
+    `override => true` -/
+def fieldErr2 (parents : List Field) (x : String × FTag × GoTy) : Option String :=
+  let tg := x.2.1
+  let t1 := tagType tg x.2.2
+  let val : Option Val := match tg.dflt with
+    | some d => some d.toVal
+    | none => if isOptTy t1 then some .undef else none
+  let overrideErr : Option String := match parents.find? (fun p => p.name == tg.attr.getD (lowerFirst x.1)) with
+    | some p => if p.kind == .constant && tg.kind != .constant then some "PCORE_OVERRIDE_OF_FINAL"
+                else some "PCORE_OVERRIDE_IS_MISSING"
+    | none => none
+  match val with
+  | some v =>
+      if tg.kind == .derived || tg.kind == .givenOrDerived then some "PCORE_ILLEGAL_KIND_VALUE_COMBINATION"
+      else if !inst t1 v then some "PCORE_TYPE_MISMATCH" else overrideErr
+  | none => if tg.kind == .constant then some "PCORE_CONSTANT_REQUIRES_VALUE" else overrideErr
+
+/-- the error (issue code) that deriving the object type of the struct type `S` reports, if any: TypeFromReflect + AddTypes -/
+def deriveErr (S : GoTy) : Option String :=
+  match (ownTags S).findSome? fieldErr1 with
+  | some e => some e
+  | none => (ownTags S).findSome? (fieldErr2 (parentMembers S))
+
+/-- the shapes of struct types inside the model: own attribute names distinct (a repeated name silently replaces the
+    earlier attribute) and promoted Go names distinct (Go resolves a clash by depth or finds the name ambiguous) -/
+def shapeOK (S : GoTy) : Bool :=
+  nodupS ((ownTags S).map fun x => x.2.1.attr.getD (lowerFirst x.1)) && nodupS (promotedNames S)
+
+/-- the object type can be derived (no error) and is inside the model: distinct attribute names over the parent chain,
+    every (stored) attribute a modelled field -/
 def structWF (S : GoTy) : Bool :=
-  nodupS ((attrsOf S).map (·.name)) && nodupS ((attrsOf S).map (·.goName)) && (attrsOf S).all flatField
+  shapeOK S && (deriveErr S).isNone && nodupS ((attrsOf S).map (·.name)) && (attrsOf S).all flatField
+
+/-- the order in which the harness registers the struct types of a type term (registerStructs: key, element, fields, then
+    the struct itself; a type already seen is not registered again) -/
+def regGo : Bool → GoTy → List GoTy → List GoTy
+  | _, .slice e, acc => regGo true e acc
+  | _, .ptr e, acc => regGo true e acc
+  | _, .array _ e, acc => regGo true e acc
+  | _, .map k v, acc => regGo true v (regGo true k acc)
+  | self, .snil, acc => if self && !acc.contains .snil then acc ++ [.snil] else acc
+  | self, .scons n tg ft rest, acc =>
+      let acc' := regGo false rest (regGo true ft acc)
+      if self && !acc'.contains (.scons n tg ft rest) then acc' ++ [.scons n tg ft rest] else acc'
+  | _, _, acc => acc
+
+def regOrder (ty : GoTy) : List GoTy := regGo true ty []
+
+/-- the first derivation error in registration order: what registering the struct types of `ty` reports -/
+def firstErr (ty : GoTy) : Option String := (regOrder ty).findSome? deriveErr
 
 /-- every struct type that occurs in a type (the ones the harness registers) -/
 def structsIn : GoTy → List GoTy
